@@ -18,6 +18,6 @@ def suites(tier):
     q = tier == "quick"
     jobs = []
     for key in ("", "k1"):
-        cfg = dict(headers=2 if q else 3, body=2 if q else 4, chunk=3 if q else 5)
+        cfg = dict(headers=2 if q else 3, body=3 if q else 4, chunk=3 if q else 5)
         jobs.append(dict(id="http:key=%s" % (key or "none"), func="zzH_C16_http", cfg=cfg, cfgs=dict(key=key)))
     return [src_suite("src", jobs)]
